@@ -294,7 +294,7 @@ fn diag_tokenizer(e: &TokenizerError) -> Sx {
     diag("Tokenizer", variant, line, filename, &key)
 }
 
-fn diag_a2l(e: &A2lError) -> Sx {
+pub(crate) fn diag_a2l(e: &A2lError) -> Sx {
     let variant = match e {
         A2lError::ParserError { parser_error } => return diag_parser(parser_error),
         A2lError::TokenizerError { tokenizer_error } => return diag_tokenizer(tokenizer_error),
@@ -315,7 +315,42 @@ fn diag_a2l(e: &A2lError) -> Sx {
 }
 
 /// Rust's float parsing / printing on every distinct Number token of the input (file 0 only)
-fn floattable(text: &str) -> Sx {
+fn floatentry(tt: &str) -> Sx {
+    // parser.rs get_double / get_float: hex notation is read as u64 and converted
+    let hex = tt.starts_with("0x") || tt.starts_with("0X");
+    let v64: Option<f64> = if hex {
+        tt.get(2..).and_then(|d| u64::from_str_radix(d, 16).ok()).map(|n| n as f64)
+    } else {
+        tt.parse::<f64>().ok()
+    };
+    let v32: Option<f32> = if hex {
+        tt.get(2..).and_then(|d| u64::from_str_radix(d, 16).ok()).map(|n| n as f32)
+    } else {
+        tt.parse::<f32>().ok()
+    };
+    let (ok, bits, plain, exp) = match v64 {
+        Some(v) => (true, f64_bits(v), format!("{}", v), format!("{:e}", v)),
+        None => (false, Sx::I(0), String::new(), String::new()),
+    };
+    // an f32 value is written through add_float(value.into()), i.e. widened to f64 first
+    let (ok32, bits32, plain32, exp32) = match v32 {
+        Some(v) => (true, f64_bits(v as f64), format!("{}", v as f64), format!("{:e}", v as f64)),
+        None => (false, Sx::I(0), String::new(), String::new()),
+    };
+    Sx::L(vec![
+        Sx::s(tt),
+        Sx::b(ok),
+        bits,
+        Sx::s(&plain),
+        Sx::s(&exp),
+        Sx::b(ok32),
+        bits32,
+        Sx::s(&plain32),
+        Sx::s(&exp32),
+    ])
+}
+
+pub(crate) fn floattable(text: &str) -> Sx {
     let Ok(Ok((tokens, filedata))) =
         catch_unwind(AssertUnwindSafe(|| a2lfile::verif_hooks::tokenize("", text)))
     else {
@@ -336,38 +371,21 @@ fn floattable(text: &str) -> Sx {
         if !seen.insert(tt) {
             continue;
         }
-        // parser.rs get_double / get_float: hex notation is read as u64 and converted
-        let hex = tt.starts_with("0x") || tt.starts_with("0X");
-        let v64: Option<f64> = if hex {
-            u64::from_str_radix(&tt[2..], 16).ok().map(|n| n as f64)
-        } else {
-            tt.parse::<f64>().ok()
-        };
-        let v32: Option<f32> = if hex {
-            u64::from_str_radix(&tt[2..], 16).ok().map(|n| n as f32)
-        } else {
-            tt.parse::<f32>().ok()
-        };
-        let (ok, bits, plain, exp) = match v64 {
-            Some(v) => (true, f64_bits(v), format!("{}", v), format!("{:e}", v)),
-            None => (false, Sx::I(0), String::new(), String::new()),
-        };
-        // an f32 value is written through add_float(value.into()), i.e. widened to f64 first
-        let (ok32, bits32, plain32, exp32) = match v32 {
-            Some(v) => (true, f64_bits(v as f64), format!("{}", v as f64), format!("{:e}", v as f64)),
-            None => (false, Sx::I(0), String::new(), String::new()),
-        };
-        out.push(Sx::L(vec![
-            Sx::s(tt),
-            Sx::b(ok),
-            bits,
-            Sx::s(&plain),
-            Sx::s(&exp),
-            Sx::b(ok32),
-            bits32,
-            Sx::s(&plain32),
-            Sx::s(&exp32),
-        ]));
+        out.push(floatentry(tt));
+    }
+    Sx::L(out)
+}
+
+/// the same table for text that cannot be tokenised on its own (files with /include): every blank-separated word that
+/// starts like a number - a superset of the number tokens
+pub(crate) fn floattable_words(text: &str) -> Sx {
+    let mut seen = std::collections::HashSet::<&str>::new();
+    let mut out = vec![];
+    for w in text.split_ascii_whitespace() {
+        let Some(c) = w.bytes().next() else { continue };
+        if (c.is_ascii_digit() || c == b'+' || c == b'-' || c == b'.') && seen.insert(w) {
+            out.push(floatentry(w));
+        }
     }
     Sx::L(out)
 }
@@ -422,7 +440,7 @@ fn parsed_a2ml(text: &str) -> Sx {
 
 /// ( ( ( s<text of an A2ML block, \r\n -> \n> <parsed> )* ) ( <parsed builtin spec>? ) ): what a2ml::parse_a2ml makes of the
 /// A2ML texts of the file and of the a2ml_spec argument - the oracle the parser model takes as input
-fn a2mltable(text: &str, spec: &Option<String>) -> Sx {
+pub(crate) fn a2mltable(text: &str, spec: &Option<String>) -> Sx {
     let mut entries: Vec<Sx> = vec![];
     let mut seen: Vec<String> = vec![];
     if let Ok(Ok((tokens, files))) = catch_unwind(AssertUnwindSafe(|| a2lfile::verif_hooks::tokenize("", text))) {
